@@ -266,6 +266,21 @@ def clause_self_update_mapping(prog, rep):
                 dep, calls, consts = g.depends_on(l)
                 if any(isinstance(k, dict) and k.get("str") == "last_self_update_at" for _, k in consts):
                     ok_load = True
+            # the same mapping written as a comparison (`if secs == 0 { Required } else { CompletedAt(..) }`)
+            l = A._opl(t["discr"])
+            for b2, kind, x in g.defs().get(l, []) if l is not None else []:
+                if kind == "stmt" and x.get("k") == "binop" and x.get("op") in ("Eq", "Ne") and len(x.get("o", [])) == 2:
+                    zero = [o for o in x["o"] if isinstance(o.get("c"), dict) and o["c"].get("int") == 0]
+                    other = [o for o in x["o"] if "p" in o]
+                    if len(zero) != 1 or len(other) != 1:
+                        continue
+                    true_side = tg.get(1, t["otherwise"])
+                    false_side = tg.get(0, t["otherwise"])
+                    zside, nzside = (true_side, false_side) if x["op"] == "Eq" else (false_side, true_side)
+                    if first_variant(zside) == "Required" and first_variant(nzside) == "CompletedAt":
+                        _, _, consts = g.depends_on(other[0]["p"][0])
+                        if any(isinstance(k, dict) and k.get("str") == "last_self_update_at" for _, k in consts):
+                            ok_load = True
     rep.check(ok_load, "self-update-mapping", "load/0->Required", "0 loads as Required, other values as CompletedAt",
               "row_to_group no longer maps 0 -> Required / ts -> CompletedAt", g.loc())
 
